@@ -61,6 +61,15 @@ let cmd_pick args =
        | _ -> failwith "pick: bad header")
   | _ -> failwith "pick: bad args"
 
+(* estimate <L> <size> <sample> <maxs> <pos0> *)
+let cmd_estimate args =
+  match List.map int_of_string (split_on ' ' args) with
+  | [l; size; sample; maxs; pos0] ->
+      (match estimate (z_of_int l) (z_of_int size) (z_of_int sample) (z_of_int maxs) (z_of_int pos0) with
+       | Some (targets, fin) -> Printf.printf "%s|%d\n" (String.concat "," (List.map (fun z -> string_of_int (int_of_z z)) targets)) (int_of_z fin)
+       | None -> print_endline "outoffuel")
+  | _ -> failwith "estimate: bad args"
+
 (* ---- streams ---- *)
 let n_of_int n = if n = 0 then N0 else Npos (pos_of_int n)
 let int_of_n = function N0 -> 0 | Npos p -> int_of_pos p
@@ -259,7 +268,7 @@ let run_trace_block () =
     (String.concat "/" (List.map event_s prog_events)) (dump_world wf)
 
 let () =
-  let extra = ref [("pick", cmd_pick); ("por", cmd_por); ("bio", cmd_bio true); ("fio", cmd_bio false); ("zsd", cmd_zsd)] in
+  let extra = ref [("pick", cmd_pick); ("estimate", cmd_estimate); ("por", cmd_por); ("bio", cmd_bio true); ("fio", cmd_bio false); ("zsd", cmd_zsd)] in
   try
     while true do
       let line = input_line stdin in
